@@ -156,13 +156,14 @@ for _pid, _t in ROUND4.items():
 
 # rounds 5 and 6: what the sub-checks added since then cover (the Rule strings copied into the evidence files are the full description)
 ROUND56 = {
-    "C03": " Rounds 5-6: sub-checks session_history (several queries and deliberately failing statements in one session), row_errors, reference_forms; 10% of the large tables have 1000-1500 rows.",
+    "C03": " Rounds 5-6: sub-checks session_history (several queries and deliberately failing statements in one session; a failing statement runs under a 20 s deadline and the session is given up unjudged when it is hit), row_errors, reference_forms; 10% of the large tables have 1000-1500 rows.",
     "C06": " Rounds 5-6: sub-checks operators / rows_context / row_values / tz_spellings / dt_format; in dt_format the datetime formats also arrive through RELOAD CONFIG (csvq_env.json) and 40% of the sessions evaluate and judge the same comparisons before the formats are set.",
     "C07": " Rounds 5-6: sub-checks datetime_format, nested, grouped, strict (--strict-equal) and big_cut (tables of 13-3000 rows built from a few drawn parameters: head windows WITH TIES whose tie group reaches far beyond the cut, percentages that are multiples of 0.25 and give a whole number of rows - exact count required).",
     "C08": " Round 6: failing CREATE TABLE (column list with a duplicate name) AS SELECT, detected after the query was evaluated.",
     "C10": " Rounds 5-6: sub-checks multi_tx, syscall_kill, write_fault, async; in crash_points 15% of the CREATE TABLE statements find a file (zero length or a small table) at their path and every file that existed before the transaction is judged old-or-new.",
     "C12": " Rounds 5-6: SET @@FLAG preludes and flag changes in mid-program, SET @@CPU in the program, sub-checks sources, row_error, procedural, funcs and big_groups (1600-6400 rows in 1-4 buckets: float aggregates whose result depends on how the value list is cut, as aggregates, analytic functions and INSERT..SELECT).",
-    "C17": " Rounds 5-6: sub-checks keys (one key value in several spellings), inline, lateral, sources; 10% of the large tables have 1000-1500 rows.",
+    "C17": " Rounds 5-6: sub-checks keys (one key value in several spellings), inline, lateral, sources; 10% of the large tables have 1000-1500 rows. Round 7: user-defined aggregate utag whose result shows the text of its row-dependent second argument (spellings that compare equal but differ as values).",
+    "C16": " Rounds 5-7: sub-checks evaluation-once, pseudo_cursor, cursor_shapes; SHOW CURSORS as observer; float offsets beyond the integer range; WHILE IN bodies that declare a cursor and a variable of their own in every iteration.",
     "C19": " Rounds 5-6: LPAD/RPAD lengths of 2^53..2^63-1 (a result that cannot exist: error or NULL only), format strings with multi-byte arguments of 10-20000 characters and precisions between their character count and byte length.",
 }
 for _pid, _t in ROUND56.items():
